@@ -106,6 +106,7 @@ func TestVerifC14Enc(t *testing.T) {
 			c14UnmarshalExpanded(out, n+len(builtins)+1)
 			c14ErrorTexts(out, n+len(builtins)+2)
 			c14WhitespaceSecrets(out, n+len(builtins)+3)
+			c14MergingMarshalers(out, n+len(builtins)+4)
 		}
 		if c < len(builtins) {
 			c14Builtin(out, c, builtins[c])
@@ -745,6 +746,85 @@ func c14WhitespaceSecrets(out *vOut, c int) {
 			}
 		}
 		out.Linef("stat white_space_secret_kinds 1")
+	}
+	out.Linef("nt")
+	out.Linef("end")
+	out.Flush()
+}
+
+// ---- Marshalers that merge raw values -------------------------------------------------------------------------
+// a type's Marshal(*confmap.Conf) may hand its fields to the Conf with conf.Merge(NewFromStringMap(...)) instead of
+// conf.Marshal: the values then reach the TextMarshaler hook only because encodeStruct walks the hook's result again.
+// Root (pointer operand), nested field, slice element, map value, pointer field, with a map[string]opaque inside.
+
+type c14MergeHdrs struct {
+	Token configopaque.String
+	Hdrs  map[string]configopaque.String
+	Raw   map[string]any
+}
+
+func (c c14MergeHdrs) Marshal(conf *confmap.Conf) error {
+	return conf.Merge(confmap.NewFromStringMap(map[string]any{"token": c.Token, "hdrs": c.Hdrs, "raw": c.Raw}))
+}
+
+func c14MergingMarshalers(out *vOut, c int) {
+	out.Linef("case %d merging-marshalers", c)
+	out.Linef("op builtin name=merging-marshalers")
+	out.Linef("obs checked")
+	const sec = "Qm3rg3-s3cr3t-Zx"
+	mk := func() c14MergeHdrs {
+		return c14MergeHdrs{Token: sec, Hdrs: map[string]configopaque.String{"authorization": sec},
+			Raw: map[string]any{"k": configopaque.String(sec), "l": []any{configopaque.String(sec)}, "m": map[string]any{"n": configopaque.String(sec)}}}
+	}
+	inner := mk()
+	shapes := []struct {
+		name string
+		v    any
+	}{
+		{"root-pointer", &inner},
+		{"field", struct {
+			X c14MergeHdrs `mapstructure:"x"`
+		}{mk()}},
+		{"pointer-field", struct {
+			X *c14MergeHdrs `mapstructure:"x"`
+		}{&inner}},
+		{"slice-element", struct {
+			L []c14MergeHdrs `mapstructure:"l"`
+		}{[]c14MergeHdrs{mk(), mk()}}},
+		{"map-value", struct {
+			M map[string]c14MergeHdrs `mapstructure:"m"`
+		}{map[string]c14MergeHdrs{"a": mk()}}},
+		{"any-field", struct {
+			A any `mapstructure:"a"`
+		}{mk()}},
+		{"nested-twice", struct {
+			O struct {
+				X c14MergeHdrs `mapstructure:"x"`
+			} `mapstructure:"o"`
+		}{struct {
+			X c14MergeHdrs `mapstructure:"x"`
+		}{mk()}}},
+		{"squashed", struct {
+			X c14MergeHdrs `mapstructure:",squash"`
+		}{mk()}},
+	}
+	for _, sh := range shapes {
+		m, err := c14Marshal(sh.v)
+		if err != nil {
+			out.Linef("stat merging_marshaler_rejected 1")
+			continue
+		}
+		c14LiveLeaves(m, "", func(shape, what string) {
+			out.Linef("viol sig=C14/encode/live-opaque-value-in-marshalled-map/%s what=%s input=merging-marshaler/%s", shape, what, sh.name)
+		}, []string{sec})
+		// what an extension does with the effective configuration: Get, Unmarshal into plain fields, print
+		conf := confmap.NewFromStringMap(m)
+		var plain map[string]any
+		_ = conf.Unmarshal(&plain)
+		if c14ContainsAny(fmt.Sprintf("%v %#v", m, plain), []string{sec}) {
+			out.Linef("viol sig=C14/encode/live-opaque-value-in-marshalled-map/printed what=secret-text input=merging-marshaler/%s", sh.name)
+		}
+		out.Linef("stat merging_marshaler_shapes 1")
 	}
 	out.Linef("nt")
 	out.Linef("end")
